@@ -144,9 +144,69 @@ def rec(matches):
     return [(tuple(m.parts), m.path, canon(unwrap(m.obj))) for m in matches]
 
 
+def run_recursion_limit(ctx, limit):
+    """Documents (Python objects) nested from a quarter of the interpreter's recursion limit to three times it. Both
+    calls are made from the same coroutine, i.e. with the same stack below them. Far inside the limit both must
+    answer, and the same; far beyond it the synchronous call refuses with RecursionError and the asynchronous one must
+    then refuse too, with the same kind of error (the statement: an error exactly when the synchronous call raises one, of
+    the same kind). The band around the limit itself, where a frame more or less decides, is not judged."""
+    import asyncio
+    import sys
+
+    import jsonpath
+    from rt import deep
+
+    old = sys.getrecursionlimit()
+    if limit:
+        sys.setrecursionlimit(limit)
+    lim = sys.getrecursionlimit()
+    try:
+        for shape in ("objects", "mixed", "arrays"):
+            for depth, zone in ((lim // 5, "inside"), (lim // 4, "inside"), (2 * lim, "beyond"), (3 * lim, "beyond")):
+                doc, _levels = deep.chain(depth, shape)
+                for text in ("$..id", "$..[?@.id == %d]" % depth, "$..x[0]" if shape != "arrays" else "$..[2]", "$.a..id | $.id" if shape == "objects" else "$..id | $[1]"):
+                    async def both():
+                        try:
+                            s = ("ok", [(m.path if len(m.path) < 200 else len(m.parts), m.obj if not isinstance(m.obj, (dict, list)) else type(m.obj).__name__) for m in jsonpath.finditer(text, doc)])
+                        except RecursionError:
+                            s = ("RecursionError",)
+                        except Exception as e:  # noqa: BLE001
+                            s = ("error", type(e).__name__)
+                        try:
+                            a = ("ok", [(m.path if len(m.path) < 200 else len(m.parts), m.obj if not isinstance(m.obj, (dict, list)) else type(m.obj).__name__) async for m in await jsonpath.finditer_async(text, doc)])
+                        except RecursionError:
+                            a = ("RecursionError",)
+                        except Exception as e:  # noqa: BLE001
+                            a = ("error", type(e).__name__)
+                        try:
+                            a2 = ("ok", len(await jsonpath.findall_async(text, doc)))
+                        except RecursionError:
+                            a2 = ("RecursionError",)
+                        except Exception as e:  # noqa: BLE001
+                            a2 = ("error", type(e).__name__)
+                        return s, a, a2
+                    s, a, a2 = asyncio.run(both())
+                    ctx.evaluation()
+                    ctx.case(h("recursion-limit", limit, shape, depth, text), True)
+                    ctx.cell("recursion_limit", "%s the limit: sync %s, async %s" % (zone, s[0], a[0]))
+                    case = {"kind": "recursion-limit", "limit": limit}
+                    detail = {"text": text, "shape": shape, "depth": depth, "recursion_limit": lim, "sync": repr(s)[:160], "finditer_async": repr(a)[:160], "findall_async": repr(a2)[:80]}
+                    if zone == "inside" and s[0] != "ok":
+                        ctx.notes.append("sync refused a document nested %d deep under limit %d" % (depth, lim))
+                        continue
+                    if s[0] == "ok" and (a != s or a2 != ("ok", len(s[1]))):
+                        ctx.violation("async-differs-from-sync-on-a-deeply-nested-document", case, detail)
+                        return
+                    if s[0] != "ok" and (a[0] != s[0] or a2[0] != s[0] or (s[0] == "error" and (a[1] != s[1] or a2[1] != s[1]))):
+                        ctx.violation("async-%s-where-sync-raises-%s" % ("answers" if "ok" in (a[0], a2[0]) else "raises-another-kind-of-error", s[0] if s[0] != "error" else s[1]), case, detail)
+                        return
+    finally:
+        sys.setrecursionlimit(old)
+
+
 def plan(tier, seed):
     n = 14 if tier == "quick" else 46
-    return [{"kind": "streams", "n": 250 if tier == "quick" else 2500}, {"kind": "scale", "lengths": [255, 257, 1025, 4097, 16383, 16384]}, {"kind": "scale", "lengths": [16385, 20000, 32769]}, {"kind": "scale", "lengths": [65535, 65537] if tier == "quick" else [65535, 65537, 131073]}, {"kind": "shared", "n": 150 if tier == "quick" else 800}, {"kind": "shared", "n": 150 if tier == "quick" else 800}] + [{"kind": ["std", "ext", "ext"][i % 3], "n": 600 if tier == "quick" else 3000} for i in range(n)]
+    return [{"kind": "recursion-limit", "limit": None}, {"kind": "recursion-limit", "limit": 400}, {"kind": "streams", "n": 250 if tier == "quick" else 2500}, {"kind": "scale", "lengths": [255, 257, 1025, 4097, 16383, 16384]}, {"kind": "scale", "lengths": [16385, 20000, 32769]}, {"kind": "scale", "lengths": [65535, 65537] if tier == "quick" else [65535, 65537, 131073]}, {"kind": "shared", "n": 150 if tier == "quick" else 800}, {"kind": "shared", "n": 150 if tier == "quick" else 800}] + [{"kind": ["std", "ext", "ext"][i % 3], "n": 600 if tier == "quick" else 3000} for i in range(n)]
 
 
 def install():
@@ -358,6 +418,9 @@ def run(spec, ctx):
     install()
     r = ctx.rng
     env = jsonpath.DEFAULT_ENV
+    if spec.get("kind") == "recursion-limit":
+        run_recursion_limit(ctx, spec["limit"])
+        return
     if spec.get("kind") == "streams":
         run_streams(ctx, spec["n"])
         return
@@ -484,6 +547,9 @@ def replay(case, ctx):
     import jsonpath
 
     install()
+    if case.get("kind") == "recursion-limit":
+        run_recursion_limit(ctx, case.get("limit"))
+        return
     if case.get("kind") == "shared":
         run_shared(ctx, case["text"], case["hist"], case)
         return
